@@ -1,8 +1,96 @@
-(* Props/C10.v — Arbiter commands run FIFO, at most once, on the arbiter's own thread. *)
-From AN Require Import Model.Rt Proofs.RtFacts.
+(* Props/C10.v — Arbiter commands run FIFO, at most once, on the arbiter's own thread.
+   ONLY statements (proofs: Proofs/RtFacts.v, Proofs/RtSound.v).  Model: Model/Rt.v, a labelled transition
+   system; `run ops sched` is the state after the schedule `sched` (any list of labels = any interleaving
+   of the coordinator, the arbiter threads and the system thread) on the script `ops`.  `hist a` is every
+   command ever enqueued into arbiter a's channel, in channel order; `started a` the tids of the tasks
+   that have started on it, in order.
+   Strength: the LOGIC for all scripts and all schedules of the model; real thread interleavings of the
+   implementation are sampled by the harness, not enumerated (partial, see notes/rt.md). *)
+From AN Require Import Model.Rt Proofs.RtFacts Proofs.RtSound.
+
+(* FIFO: the started tasks are a prefix of the Execute commands enqueued before the first Stop, in channel order *)
+Theorem C10_fifo : forall ops sched k a, nth_error (arbs (run ops sched)) k = Some a ->
+  is_prefix (started a) (execs (pre_stop (hist a))) = true.
+Proof. exact fifo_run. Qed.
+
+(* at most once *)
+Theorem C10_once : forall ops sched k a, nth_error (arbs (run ops sched)) k = Some a -> NoDup (started a).
+Proof. exact once_run. Qed.
+
+(* nothing enqueued after the first Stop (stop() from anywhere: a handle, the system, the arbiter itself) ever starts *)
+Theorem C10_after_stop : forall ops sched k a pre post, nth_error (arbs (run ops sched)) k = Some a ->
+  hist a = pre ++ Stop :: post -> forall i, In i (execs post) -> ~ In i (started a).
+Proof. exact after_stop_run. Qed.
+
+(* spawn/spawn_fn/stop report false iff the arbiter's receiver is gone (or it never existed) ... *)
+Theorem C10_spawn_false : forall s ops' k c,
+  olog (send_op s ops' k c) = olog s ++ [if rx_alive k (arbs s) then RTrue else RFalse] /\
+  (rx_alive k (arbs s) = false <-> (forall a, nth_error (arbs s) k = Some a -> ph a = Dropped)).
+Proof. exact send_result. Qed.
+
+(* ... and once it is gone it stays gone and nothing more starts on it *)
+Theorem C10_gone_stays_gone : forall s l k a, nth_error (arbs s) k = Some a -> ph a = Dropped ->
+  exists a', nth_error (arbs (step s l)) k = Some a' /\ ph a' = Dropped /\ alog a' = alog a.
+Proof. exact dropped_absorbing. Qed.
+
+(* every started task ran on its arbiter's own thread (thread 2+k: distinct per arbiter, distinct from the
+   system thread 0 and the senders 1) and saw that arbiter's System (id 0) in the thread-locals *)
+Theorem C10_identity : forall ops sched k a e, nth_error (arbs (run ops sched)) k = Some a -> In e (alog a) ->
+  e_thr e = a_thr a /\ a_thr a = 2 + k /\ e_sys e = a_sys a /\ a_sys a = 0.
+Proof. exact identity_run. Qed.
+
+(* join() returns only after the loop has ended: it answers only in phase Dropped, which is entered only from Ended *)
+Theorem C10_join : forall s k ops', rest s = OJoin k :: ops' ->
+  olog (step s LCoord) = olog s ++ [RJoined] -> forall a, nth_error (arbs s) k = Some a -> ph a = Dropped.
+Proof. exact join_only_after_end. Qed.
+Theorem C10_join_after_end : forall s l k a a', nth_error (arbs s) k = Some a ->
+  nth_error (arbs (step s l)) k = Some a' -> ph a' = Dropped -> ph a = Dropped \/ (ph a = Ended /\ l = LDrop k).
+Proof. exact dropped_only_from_ended. Qed.
 
 (* block_on returns exactly its future's output, whatever was spawned and however often it pended *)
 Theorem C10_block_on : forall pend v spawned ran, fst (block_on pend v spawned ran) = v.
 Proof. exact block_on_output. Qed.
 
+(* the acceptance predicate run as monitor on the implementation's logs accepts every log of the model *)
+Theorem C10_Rt_accepts_sound : forall userun ops sched,
+  Rt_accepts userun ops (observable_log userun (run ops sched)) = true.
+Proof. exact Rt_accepts_sound_all. Qed.
+
+(* non-vacuity: two arbiters; a panicking task does not disturb the next one; task 5, sent after stop(), never
+   starts; a task-issued system stop (code 7) precedes the direct one (3); sends after join report false *)
+Definition ex_ops := [ONew; ONew; OSpawn 0 KDone; OSpawn 0 KPanic; OStop 0; OSpawn 0 KPend; OSpawn 1 (KStopSys 7);
+                      OSysStop 3; OWaitRun; OJoin 0; OJoin 1; OSpawn 1 KDone].
+Definition ex_sched := [LCoord; LCoord; LCoord; LCoord; LRunner 0; LTask 0; LCoord; LCoord; LRunner 0; LTask 0; LRunner 0;
+                        LRunner 0; LDrop 0; LCoord; LRunner 1; LTask 1; LCoord; LSys; LSys; LSys; LSys; LSys; LSysRet;
+                        LCoord; LCoord; LCoord; LRunner 1; LDrop 1; LCoord; LCoord].
+Example C10_example :
+  observable_log false (run ex_ops ex_sched)
+  = mkLog (Some (VCode 7))
+          [[mkEv 2 2 0; mkEv 3 2 0]; [mkEv 6 3 0]]
+          [RUnit; RUnit; RTrue; RTrue; RTrue; RTrue; RTrue; RUnit; RRet; RJoined; RJoined; RFalse]
+  /\ map hist (arbs (run ex_ops ex_sched))
+     = [[Execute (mkTask 2 KDone); Execute (mkTask 3 KPanic); Stop; Execute (mkTask 5 KPend)];
+        [Execute (mkTask 6 (KStopSys 7)); Stop; Stop]].
+Proof. vm_compute. split; reflexivity. Qed.
+(* the monitor is not trivially true: a log in which the task sent after stop() started is rejected *)
+Example C10_monitor_rejects :
+  Rt_accepts false ex_ops (mkLog (Some (VCode 7)) [[mkEv 2 2 0; mkEv 3 2 0; mkEv 5 2 0]; [mkEv 6 3 0]]
+          [RUnit; RUnit; RTrue; RTrue; RTrue; RTrue; RTrue; RUnit; RRet; RJoined; RJoined; RFalse]) = false
+  /\ Rt_accepts false ex_ops (mkLog (Some (VCode 7)) [[mkEv 3 2 0; mkEv 2 2 0]; [mkEv 6 3 0]]
+          [RUnit; RUnit; RTrue; RTrue; RTrue; RTrue; RTrue; RUnit; RRet; RJoined; RJoined; RFalse]) = false
+  /\ Rt_accepts false ex_ops (mkLog (Some (VCode 7)) [[mkEv 2 2 0; mkEv 3 3 0]; [mkEv 6 3 0]]
+          [RUnit; RUnit; RTrue; RTrue; RTrue; RTrue; RTrue; RUnit; RRet; RJoined; RJoined; RFalse]) = false
+  /\ Rt_accepts false ex_ops (mkLog (Some (VCode 7)) [[mkEv 2 2 0; mkEv 3 2 0]; [mkEv 6 3 0]]
+          [RUnit; RUnit; RTrue; RTrue; RTrue; RTrue; RTrue; RUnit; RRet; RJoined; RJoined; RTrue]) = false.
+Proof. vm_compute. repeat split; reflexivity. Qed.
+
+Print Assumptions C10_fifo.
+Print Assumptions C10_once.
+Print Assumptions C10_after_stop.
+Print Assumptions C10_spawn_false.
+Print Assumptions C10_gone_stays_gone.
+Print Assumptions C10_identity.
+Print Assumptions C10_join.
+Print Assumptions C10_join_after_end.
 Print Assumptions C10_block_on.
+Print Assumptions C10_Rt_accepts_sound.
